@@ -153,9 +153,15 @@ std::string FileAndReload(const std::string& path) {
   return (content.empty() ? std::string("empty") : hex(content)) + " " + l2;
 }
 
-std::string RunCase(const std::vector<std::string>& w) {
+std::string RunCase(const std::vector<std::string>& w0) {
   const std::string path = P(".ninja_deps");
   unlink((path + ".recompact").c_str());
+  // optional last token "left=<hex>": a file an earlier recompaction that was killed left behind
+  std::vector<std::string> w = w0;
+  if (!w.empty() && w.back().compare(0, 5, "left=") == 0) {
+    PutFile(w.back().substr(5), path + ".recompact");
+    w.pop_back();
+  }
   if (w.size() == 2 && w[0] == "load") {
     PutFile(w[1], path);
     State state; DepsLog log; LoadStatus st; std::string extra;
